@@ -15,6 +15,7 @@ package interp
 import (
 	"reflect"
 	"sync"
+	"sync/atomic"
 	"time"
 )
 
@@ -200,8 +201,73 @@ func vh_C08_call() {
 	vAssert("C08.readonly.call", vEventCount("capwrite:") == 0)
 }
 
+// A call of a compiled (binary) function, "r := hostFn(x)" as a statement run
+// by several activations: the closure callBin installs must keep its argument
+// and result buffers per execution.
+var vhBinForm = 0 // 0: call statement, result discarded; 1: the result is assigned
+
+func vh_C08_callbin() {
+	vhResetClock()
+	vhStopAt = -1
+	i := vhNewInterp()
+	i.mapTypes = map[reflect.Value][]reflect.Type{}
+	intT := &itype{cat: intT, rtype: reflect.TypeOf(0)}
+	host := func(v int) int { return v + 1 }
+	hv := reflect.ValueOf(host)
+	ft := &itype{cat: valueT, rtype: hv.Type()}
+	c0 := &node{interp: i, kind: identExpr, findex: notInFrame, rval: hv, typ: ft}
+	x := &node{interp: i, kind: identExpr, findex: 0, typ: intT}
+	n := &node{interp: i, kind: callExpr, child: []*node{c0, x}, typ: &itype{cat: valueT, rtype: intT.rtype}, findex: 1}
+	c0.anc, x.anc = n, n
+	if vhBinForm == 1 {
+		dst := &node{interp: i, kind: identExpr, findex: 2, typ: intT}
+		as := &node{interp: i, kind: assignStmt, action: aAssign, nleft: 1, nright: 1, child: []*node{dst, n}}
+		dst.anc, n.anc = as, as
+	} else {
+		n.anc = &node{interp: i, kind: exprStmt, child: []*node{n}}
+	}
+	callBin(n)
+	mk := func(v int64) *frame {
+		f := newFrame(i.frame, 3, i.runid())
+		for k := 0; k < 3; k++ {
+			f.data[k] = reflect.New(intT.rtype).Elem()
+		}
+		f.data[0].SetInt(v)
+		return f
+	}
+	if !vSymbolic() {
+		var wg sync.WaitGroup
+		bad := int32(0)
+		for g := 0; g < 4; g++ {
+			wg.Add(1)
+			go func(g int) {
+				defer wg.Done()
+				f := mk(int64(g))
+				for k := 0; k < 2000; k++ {
+					n.exec(f)
+					if f.data[1].Int() != int64(g)+1 {
+						atomic.StoreInt32(&bad, 1)
+					}
+				}
+			}(g)
+		}
+		wg.Wait()
+		vAssert("C08.crosstalk.callbin", atomic.LoadInt32(&bad) == 0)
+		return
+	}
+	a := vNondetInt64("a")
+	vAssume(a > -1000 && a < 1000)
+	fA := mk(a)
+	vReach("C08.callbin")
+	vWatchCaptured(n.exec)
+	n.exec(fA)
+	vWatchEnd()
+	vAssert("C08.readonly.callbin", vEventCount("capwrite:") == 0)
+	vAssert("C08.crosstalk.callbin", fA.data[1].Int() == a+1)
+}
+
 var vhScenarios = map[string]func(map[string]string) bool{}
 
-var vhRegistry = map[string]func(){"vh_C08_select": vh_C08_select, "vh_C08_chanop": vh_C08_chanop, "vh_C08_call": vh_C08_call}
+var vhRegistry = map[string]func(){"vh_C08_callbin": vh_C08_callbin, "vh_C08_select": vh_C08_select, "vh_C08_chanop": vh_C08_chanop, "vh_C08_call": vh_C08_call}
 
-var vhIntVars = map[string]*int{"vhMaxSteps": &vhMaxSteps, "vhBlockOp": &vhBlockOp, "vhCancelMode": &vhCancelMode, "vhVariadic": &vhVariadic}
+var vhIntVars = map[string]*int{"vhMaxSteps": &vhMaxSteps, "vhBlockOp": &vhBlockOp, "vhCancelMode": &vhCancelMode, "vhVariadic": &vhVariadic, "vhBinForm": &vhBinForm}
